@@ -27,10 +27,10 @@ type WARow struct {
 
 type WACase struct {
 	Mode    string   `json:"mode"`
-	D       int64    `json:"d"`       // policy duration when the batch looked the policy up
-	DAfter  int64    `json:"d_after"` // policy duration after the alteration that hit during the batch (= d if none)
+	D       int64    `json:"d"`        // policy duration when the batch looked the policy up
+	DAfter  int64    `json:"d_after"`  // policy duration after the alteration that hit during the batch (= d if none)
 	AlterAt int      `json:"alter_at"` // the alteration happened at the k-th meta call of the batch, -1 = none
-	NowSec  int64    `json:"nowsec"`  // the coordinator clock during the batch (stable)
+	NowSec  int64    `json:"nowsec"`   // the coordinator clock during the batch (stable)
 	MinTime int64    `json:"min_time"`
 	Rows    []WARow  `json:"rows"`
 	Oracle  []string `json:"oracle"`
@@ -50,7 +50,9 @@ func (m *wameta) tick() {
 	}
 	m.calls++
 }
-func (m *wameta) Database(name string) (*meta.DatabaseInfo, error) { return m.data.Databases[name], nil }
+func (m *wameta) Database(name string) (*meta.DatabaseInfo, error) {
+	return m.data.Databases[name], nil
+}
 func (m *wameta) RetentionPolicy(database, policy string) (*meta.RetentionPolicyInfo, error) {
 	return m.data.RetentionPolicy(database, policy)
 }
@@ -90,7 +92,7 @@ func (m *wameta) GetAliveShards(database string, sgi *meta.ShardGroupInfo, isRea
 	}
 	return res
 }
-func (m *wameta) GetStreamInfos() map[string]*meta.StreamInfo                { return nil }
+func (m *wameta) GetStreamInfos() map[string]*meta.StreamInfo                 { return nil }
 func (m *wameta) GetDstStreamInfos(db, rp string, d *[]*meta.StreamInfo) bool { return false }
 func (m *wameta) DBRepGroups(database string) []meta.ReplicaGroup             { return nil }
 func (m *wameta) GetReplicaN(database string) (int, error)                    { return 1, nil }
